@@ -103,6 +103,8 @@ func init() {
 		verifScenario{"C12/interp.Interpreter.cfg/case:callExpr#1/*", rejectedCleanly("package main\nfunc H[T any](a T) T { return a + 1 }\nfunc main() { println(\"ran\"); println(H[string](\"x\")) }")},
 		verifScenario{"C12/interp.Interpreter.cfg/case:callExpr#1/*", rejectedCleanly("package main\nfunc g(a int) int { return a }\nfunc main() { println(\"ran\"); println(g(\"x\")) }")},
 		verifScenario{"C12/interp.Interpreter.cfg/case:compositeLitExpr#3/*", rejectedCleanly(m + "a := []int{\"x\"}; println(len(a)) }")},
+		verifScenario{"C12/interp.Interpreter.cfg/case:sendStmt/*", rejectedCleanly(m + "h := make(chan int, 1); var c <-chan int = h; c <- 1 }")},
+		verifScenario{"C12/interp.Interpreter.cfg/case:sendStmt/*", rejectedCleanly(m + "h := make(chan int, 1); var x int8 = 3; h <- x }")},
 		verifScenario{"C12/interp.Interpreter.cfg/for:nleft#2/*", rejectedCleanly(m + "var a int; a = \"x\"; println(a) }")},
 	)
 }
